@@ -80,7 +80,7 @@ Section Inst.
 Variable cov : bool.                  (* --coverage: the main VCL is instrumented *)
 Variable P : program.
 
-Definition interp (s : tstep) : step unit N tstate :=
+Definition interp (s : tstep) : step N N tstate :=
   match s with
   | TSet f => Act (fun _ σ => ((add f (fst σ), snd σ), [], true))
   | TUnset f => Act (fun _ σ => ((del f (fst σ), snd σ), [], true))
@@ -100,11 +100,16 @@ Definition interp (s : tstep) : step unit N tstate :=
   | TAssertRes r v => Assert (fun _ σ => N.eqb (rget r (snd σ)) v)
   end.
 
-Definition irun_body (sc : unit) (b : list tstep) (σ : tstate) :=
-  run_body_steps unit N tstate sc (map interp b) σ.
+(* scopes are numbers (only the hooks of a describe group look at them) *)
+Definition irun_body (sc : N) (b : list tstep) (σ : tstate) :=
+  run_body_steps N N tstate sc (map interp b) σ.
 
-Definition itest := test unit (list tstep).
-Definition irun_file (ts : list itest) : list (tcase unit N) * counter :=
-  run_file unit N tstate (list tstep) irun_body ([], []) ts c0.
+Definition itest := test N (list tstep).
+Definition irun_file (ts : list itest) : list (tcase N N) * counter :=
+  run_file N N tstate (list tstep) irun_body ([], []) ts c0.
+
+Definition iitem := item N (list tstep).
+Definition irun_items (is : list iitem) : option (list (gcase N N) * counter) :=
+  run_items N N tstate (list tstep) irun_body ([], []) is c0.
 
 End Inst.
